@@ -1,6 +1,8 @@
 //go:build ignore
 
-// Standalone reproduction of the C18 findings on the unchanged library. Run from a module that
+// Standalone reproduction of the C18 findings (repaired by the three `fix:` commits on writer.go:
+// Reset re-initialises the encryption state, plaintext-footer redaction on the footer copy,
+// BeginRowGroup row groups are encrypted); kept as a regression program. Run from a module that
 // requires github.com/parquet-go/parquet-go (for instance inside the repository):
 //
 //	GOFLAGS=-mod=mod GOPROXY=off go run repro_encryption_writer_defects.go
